@@ -125,7 +125,7 @@ theorem dec_canon (bs : List Nat) (hb : IsBytes bs) (n : Nat) (i : Instr) (h : d
   · rw [e] at h; have o := decode16_out _ t
     rw [h] at o
     cases o with
-    | ok i h' he t' hd =>
+    | ok i h' he t' _ hd =>
       refine ⟨[h'], he, rfl, ?_⟩
       have := decode_single h' [] t'
       rw [List.append_nil] at this
